@@ -238,7 +238,7 @@ func (_this *Encoder) OnBigFloat(value *big.Float) {
 	// TODO: Big float rounding needs a configuration policy
 	v, err := conversions.BigFloatToPBigDecimalFloat(value)
 	if err != nil {
-		_this.errorf("could not convert %v to apd.Decimal", value)
+		_this.errorf("could not convert big float to apd.Decimal: %v", err)
 	}
 	_this.OnBigDecimalFloat(v)
 }
